@@ -546,6 +546,9 @@ def c09_rt(d):
   clause = d["clause"]
   if rep.get("pts_shape") and kw.get("post_training_scale") is not None:
     kw["post_training_scale"] = np.full(tuple(rep["pts_shape"]), float(kw["post_training_scale"]), dtype=np.float32)
+  if rep.get("alpha_shape") and kw.get("alpha") is not None:
+    kw["alpha"] = np.full(tuple(rep["alpha_shape"]), float(kw["alpha"]), dtype=np.float32)
+    rep["probe_shape"] = [4, rep["alpha_shape"][-1]]
   try:
     q = cls(**kw)
     cfg = q.get_config()
